@@ -470,6 +470,13 @@ def stepTable (tbl : List Entry) : TableOp → List Entry × Bool
   | .reload => (prepare (tbl.map reraw), true)
   | .bad => (tbl, false)                       -- 400 "json.Decode", nothing touched
 
+/-- An evaluation that runs while the table goes through `states` (the handlers
+take `confMu` for writing, `processRewrites` holds it for reading during the WHOLE
+call, CNAME chain included): it reads the table of one instant `i`. -/
+def evalDuring (srt : Bytes → Sorter) (states : List (List Entry)) (i : Nat) (h : Bytes) (q : Nat) :
+    Option Out :=
+  (states[i]?).map (fun t => processRewritesWith srt t h q)
+
 /-- `GET /control/rewrite/list`: the stored `domain`/`answer` pairs in table order. -/
 def listTable (tbl : List Entry) : List (Bytes × Bytes) := tbl.map (fun e => (e.domain, e.answer))
 
